@@ -5,7 +5,7 @@ use rosu_map::section::general::GameMode;
 use crate::{
     any::difficulty::skills::StrainSkill,
     mania::{convert, object::ObjectParams},
-    model::{hit_object::HitObject, mode::ConvertError},
+    model::mode::ConvertError,
     Beatmap, Difficulty,
 };
 
@@ -49,14 +49,14 @@ use super::{
 pub struct ManiaGradualDifficulty {
     pub(crate) idx: usize,
     pub(crate) difficulty: Difficulty,
-    objects_is_circle: Box<[bool]>,
     is_convert: bool,
     strain: Strain,
     diff_objects: Box<[ManiaDifficultyObject]>,
-    note_state: NoteState,
+    // Combo and hold note count after each hit object
+    note_states: Box<[NoteState]>,
 }
 
-#[derive(Default)]
+#[derive(Copy, Clone, Default)]
 struct NoteState {
     curr_combo: u32,
     n_hold_notes: u32,
@@ -94,30 +94,32 @@ impl ManiaGradualDifficulty {
 
         let strain = Strain::new(total_columns as usize);
 
-        let mut note_state = NoteState::default();
+        // Count combo and hold notes exactly like the regular calculation
+        // does, i.e. based on the objects' unscaled timestamps. Deriving them
+        // from the difficulty objects' clock rate adjusted timestamps is
+        // prone to rounding errors.
+        let mut count_params = ObjectParams::new(&map);
 
-        let objects_is_circle: Box<[_]> =
-            map.hit_objects.iter().map(HitObject::is_circle).collect();
+        let note_states: Box<[_]> = map
+            .hit_objects
+            .iter()
+            .map(|h| {
+                let _ = ManiaObject::new(h, total_columns, &mut count_params);
 
-        if let Some(h) = map.hit_objects.first() {
-            let hit_object = ManiaObject::new(h, total_columns, &mut params);
-
-            increment_combo_raw(
-                objects_is_circle[0],
-                hit_object.start_time,
-                hit_object.end_time,
-                &mut note_state,
-            );
-        }
+                NoteState {
+                    curr_combo: count_params.max_combo(),
+                    n_hold_notes: count_params.n_hold_notes(),
+                }
+            })
+            .collect();
 
         Ok(Self {
             idx: 0,
             difficulty,
-            objects_is_circle,
             is_convert: map.is_convert,
             strain,
             diff_objects,
-            note_state,
+            note_states,
         })
     }
 }
@@ -133,25 +135,18 @@ impl Iterator for ManiaGradualDifficulty {
         if self.idx > 0 {
             let curr = self.diff_objects.get(self.idx - 1)?;
             self.strain.process(curr, &self.diff_objects);
-
-            let is_circle = self.objects_is_circle[self.idx];
-            increment_combo(
-                is_circle,
-                curr,
-                &mut self.note_state,
-                self.difficulty.get_clock_rate(),
-            );
-        } else if self.objects_is_circle.is_empty() {
+        } else if self.note_states.is_empty() {
             return None;
         }
 
+        let note_state = self.note_states[self.idx];
         self.idx += 1;
 
         Some(ManiaDifficultyAttributes {
             stars: self.strain.cloned_difficulty_value() * DIFFICULTY_MULTIPLIER,
-            max_combo: self.note_state.curr_combo,
+            max_combo: note_state.curr_combo,
             n_objects: self.idx as u32,
-            n_hold_notes: self.note_state.n_hold_notes,
+            n_hold_notes: note_state.n_hold_notes,
             is_convert: self.is_convert,
         })
     }
@@ -163,11 +158,7 @@ impl Iterator for ManiaGradualDifficulty {
     }
 
     fn nth(&mut self, n: usize) -> Option<Self::Item> {
-        let skip_iter = self
-            .diff_objects
-            .iter()
-            .zip(self.objects_is_circle.iter().skip(1))
-            .skip(self.idx.saturating_sub(1));
+        let skip_iter = self.diff_objects.iter().skip(self.idx.saturating_sub(1));
 
         let mut take = cmp::min(n, self.len().saturating_sub(1));
 
@@ -177,10 +168,7 @@ impl Iterator for ManiaGradualDifficulty {
             self.idx += 1;
         }
 
-        let clock_rate = self.difficulty.get_clock_rate();
-
-        for (curr, is_circle) in skip_iter.take(take) {
-            increment_combo(*is_circle, curr, &mut self.note_state, clock_rate);
+        for curr in skip_iter.take(take) {
             self.strain.process(curr, &self.diff_objects);
             self.idx += 1;
         }
@@ -192,29 +180,6 @@ impl Iterator for ManiaGradualDifficulty {
 impl ExactSizeIterator for ManiaGradualDifficulty {
     fn len(&self) -> usize {
         self.diff_objects.len() + 1 - self.idx
-    }
-}
-
-fn increment_combo(
-    is_circle: bool,
-    diff_obj: &ManiaDifficultyObject,
-    state: &mut NoteState,
-    clock_rate: f64,
-) {
-    increment_combo_raw(
-        is_circle,
-        diff_obj.start_time * clock_rate,
-        diff_obj.end_time * clock_rate,
-        state,
-    );
-}
-
-fn increment_combo_raw(is_circle: bool, start_time: f64, end_time: f64, state: &mut NoteState) {
-    if is_circle {
-        state.curr_combo += 1;
-    } else {
-        state.curr_combo += 1 + ((end_time - start_time) / 100.0) as u32;
-        state.n_hold_notes += 1;
     }
 }
 
